@@ -54,7 +54,7 @@ def plan(tier, seed):
     nmax = 5 if tier == "quick" else 7
     nmaps = len(MAPS)
     lays = (0, 1, 2, 3)
-    shards = [("grid", mi, n, lay) for mi in range(nmaps) for n in range(1, nmax + 1) for lay in lays] + [("absent",)]
+    shards = [("grid", mi, n, lay) for mi in range(nmaps) for n in range(1, nmax + 1) for lay in lays] + [("absent",), ("many",)]
     return dict(shards=shards, bounds=dict(max_notes=nmax, tick_alphabet=list(TICKS), maps=[list(map(list, m)) for m in MAPS[:nmaps]], sustain_layouts=len(lays)), budget_s=600)
 
 
@@ -103,6 +103,26 @@ def run_shard(shard, ctx):
         for track, what in ((("BASS", "EXPERT"), "absent instrument"), (("GUITAR", "MEDIUM"), "absent difficulty"), (("GUITAR", "HARD"), "note-less track"), (("DRUMS", "EASY"), "absent instrument")):
             for args in forms:
                 check(ctx, c, text, track, args, "ValueError", what)
+        return
+    if shard[0] == "many":
+        # a track of 700 notes (thresholds on the number of notes), bounds on / next to notes everywhere
+        tempo = ((0, 120000), (300, 60000), (900, 333333), (1500, 90500))
+        sync = ["0 = TS 4"] + ["%d = B %d" % x for x in tempo]
+        ticks = [3 * i for i in range(700)]
+        body = ["%d = N %d %d" % (t, i % 5, 2 if i % 7 == 0 else 0) for i, t in enumerate(ticks)]
+        text = mk(res=100, sync=sync, tracks={"ExpertSingle": body})
+        c = impl.parse(text)
+        q = lambda t: impl.query(c, t)  # noqa: E731
+        nt = [q(t) for t in ticks]
+        lne = max(q(t + (2 if i % 7 == 0 else 0)) for i, t in enumerate(ticks))
+        G = ("GUITAR", "EXPERT")
+        check(ctx, c, text, G, [], oracle(nt, 0, lne), "700 notes")
+        marks = [0, 1, 2, 3, 4, 297, 300, 301, 897, 900, 903, 1046, 1047, 1048, 1049, 1050, 1500, 2094, 2095, 2097, 2098, 5000]
+        for s_ in marks:
+            check(ctx, c, text, G, [["tick", s_]], oracle(nt, q(s_), lne), "700 notes")
+            for e_ in marks:
+                check(ctx, c, text, G, [["tick", s_], ["tick", e_]], oracle(nt, q(s_), q(e_)), "700 notes")
+                check(ctx, c, text, G, [["us", q(s_)], ["us", q(e_) + (s_ % 2)]], oracle(nt, q(s_), q(e_) + (s_ % 2)), "700 notes")
         return
     _, mi, n, lay = shard
     tempo = ((0, 120000),) + MAPS[mi]
